@@ -1,0 +1,111 @@
+// Copyright (c) 2018-2023 Rafael Villar Burke <pachi@ietcc.csic.es>
+// Distributed under the MIT License
+// (See acoompanying LICENSE file or a copy at http://opensource.org/licenses/MIT)
+
+//! Verification hook (only built with `--cfg cteenergymodel_verif`): records every acquisition and release of the
+//! global climate tables, so that an external checker can compare the lock discipline of a run with its model.
+//!
+//! Bringing `TracedLock` into scope makes `TABLE.lock()` on a `Lazy<Mutex<T>>` resolve to the traced version
+//! (a method of the `Lazy` itself is found before the `Mutex` method behind its `Deref`). The guard it returns
+//! behaves as the standard one (same poisoning, same `Deref`); nothing is recorded unless the trace is enabled.
+
+use std::ops::{Deref, DerefMut};
+use std::sync::atomic::{AtomicBool, Ordering};
+use std::sync::{LockResult, Mutex, MutexGuard, PoisonError};
+
+use once_cell::sync::Lazy;
+
+/// Lock event: thread, address of the mutex, kind
+#[derive(Debug, Clone, Copy, PartialEq, Eq)]
+pub struct LockEvent {
+    pub thread: std::thread::ThreadId,
+    pub mutex: usize,
+    pub kind: LockEventKind,
+}
+
+#[derive(Debug, Clone, Copy, PartialEq, Eq)]
+pub enum LockEventKind {
+    /// the lock has just been acquired by this thread
+    Acquired,
+    /// the guard is about to be released by this thread
+    Released,
+    /// the guard is about to be released while the thread unwinds from a panic (the lock is poisoned)
+    ReleasedPanicking,
+}
+
+static ENABLED: AtomicBool = AtomicBool::new(false);
+static TRACE: Mutex<Vec<LockEvent>> = Mutex::new(Vec::new());
+
+/// Start recording (clears what was recorded before)
+pub fn start() {
+    TRACE.lock().unwrap_or_else(|e| e.into_inner()).clear();
+    ENABLED.store(true, Ordering::SeqCst);
+}
+
+/// Stop recording and return the events in the order they happened
+pub fn stop() -> Vec<LockEvent> {
+    ENABLED.store(false, Ordering::SeqCst);
+    std::mem::take(&mut *TRACE.lock().unwrap_or_else(|e| e.into_inner()))
+}
+
+fn record(mutex: usize, kind: LockEventKind) {
+    if ENABLED.load(Ordering::SeqCst) {
+        TRACE.lock().unwrap_or_else(|e| e.into_inner()).push(LockEvent {
+            thread: std::thread::current().id(),
+            mutex,
+            kind,
+        });
+    }
+}
+
+/// Address that identifies a table in the events
+pub fn address_of<T>(table: &Lazy<Mutex<T>>) -> usize {
+    let m: &Mutex<T> = table;
+    m as *const Mutex<T> as *const () as usize
+}
+
+pub struct TracedGuard<'a, T> {
+    guard: MutexGuard<'a, T>,
+    mutex: usize,
+}
+
+impl<T> Deref for TracedGuard<'_, T> {
+    type Target = T;
+    fn deref(&self) -> &T {
+        &self.guard
+    }
+}
+
+impl<T> DerefMut for TracedGuard<'_, T> {
+    fn deref_mut(&mut self) -> &mut T {
+        &mut self.guard
+    }
+}
+
+impl<T> Drop for TracedGuard<'_, T> {
+    fn drop(&mut self) {
+        // recorded while the lock is still held: recorded critical sections never overlap
+        record(
+            self.mutex,
+            if std::thread::panicking() { LockEventKind::ReleasedPanicking } else { LockEventKind::Released },
+        );
+    }
+}
+
+pub trait TracedLock<T> {
+    fn lock(&self) -> LockResult<TracedGuard<'_, T>>;
+}
+
+impl<T> TracedLock<T> for Lazy<Mutex<T>> {
+    fn lock(&self) -> LockResult<TracedGuard<'_, T>> {
+        let m: &Mutex<T> = self;
+        let mutex = address_of(self);
+        match m.lock() {
+            Ok(guard) => {
+                record(mutex, LockEventKind::Acquired);
+                Ok(TracedGuard { guard, mutex })
+            }
+            Err(poisoned) => Err(PoisonError::new(TracedGuard { guard: poisoned.into_inner(), mutex })),
+        }
+    }
+}
